@@ -58,7 +58,17 @@ impl Distribution for Gamma {
     /// Uses the algorithm from Marsaglia and Tsang 2000. Applies the squeeze
     /// method and has nearly constant average time for `alpha >= 1`.
     fn sample(&self) -> f64 {
-        let d = self.alpha - 1. / 3.;
+        // The Marsaglia-Tsang method below needs a shape of at least 1. For a smaller shape, draw
+        // with shape alpha + 1 and use Gamma(alpha) = Gamma(alpha + 1) * U^(1 / alpha).
+        let (shape, boost) = if self.alpha < 1. {
+            (
+                self.alpha + 1.,
+                self.uniform_gen.sample().powf(1. / self.alpha),
+            )
+        } else {
+            (self.alpha, 1.)
+        };
+        let d = shape - 1. / 3.;
         loop {
             let (x, v) = loop {
                 let x = self.normal_gen.sample();
@@ -69,10 +79,10 @@ impl Distribution for Gamma {
             };
             let u = self.uniform_gen.sample();
             if u < 1. - 0.0331 * x.powi(4) {
-                return d * v / self.beta;
+                return boost * (d * v / self.beta);
             }
             if u.ln() < 0.5 * x.powi(2) + d * (1. - v + v.ln()) {
-                return d * v / self.beta;
+                return boost * (d * v / self.beta);
             }
         }
     }
